@@ -127,6 +127,19 @@ pub fn gen(tier: &str, rng: &mut Rng, out: &mut Vec<String>) {
             } }
         }
     }
+    // integer literals of the interpreter sources (and their neighbours) as operands of every index / count / size opcode
+    {
+        let vals = crate::harvest::ints(&["script/interpreter.rs", "script/stack.rs", "script/mod.rs", "script/checker.rs", "transaction/sighash.rs"], 1 << 32);
+        for v in vals.iter() {
+            let n = crate::scriptgen::enc_num(*v as i128);
+            for op in [0x79u8, 0x7a, 0x7f, 0x98, 0x99, 0xae, 0xaf, 0xb1, 0xb2, 0x76, 0x82] {
+                // (OP_NUM2BIN is left out: a harvested size would simply allocate that many bytes)
+                let mut sc = vec![0x51, 0x52, 0x02, 0xaa, 0xbb];
+                crate::scriptgen::push_with(&mut sc, &n, 0); sc.push(op);
+                out.push(eval_req("c07", &sc, (*v % 2) as u32, None, None, "~", "~", "t:t:t"));
+            }
+        }
+    }
     // all start/break offsets in [0, len+1] for short scripts
     let m = if thorough { 400 } else { 60 };
     for _ in 0..m {
